@@ -154,7 +154,9 @@ def record(src):
             n, big = src['n'], src['big']
             c, ops = A.make_host(src, n)
             pre = project(c)
-            res = ar.add_sum_n_bits(c, list(ops), **_bas(src), **A.bkw(big))
+            # the caller may hand over a live container of the host (its input list): it must come back untouched
+            live = not src.get('host') and n % 2 == 0
+            res = ar.add_sum_n_bits(c, c.inputs if live else list(ops), **_bas(src), **A.bkw(big))
             out = A.le(res, big)
             m = len(res)
             checks = [{'op': 'wsum', 'ins': [[0, l] for l in ops], 'outs': [[j, l] for j, l in enumerate(out)]}]
